@@ -28,6 +28,9 @@ WW == {TRUE, FALSE}
 DocTyps == Typs \ {"dict", "Opt_dict"}
 DocParams == ParamsOver(DocTyps, Defs, {"plain", "dot"})
 SmallParams == ParamsOver({"int", "str", "Opt_int", "absent"}, {"absent", "None", "int_pos", "str"}, {"plain"})
+\* "long": a description long enough to be word-wrapped; it is concretised as a SWEEP of lengths, so that the wrap column falls on every
+\* part of the line -- the description, the words `Defaults to`, the default value itself -- in turn (single parameter, no return entry)
+LongParams == ParamsOver({"int", "str", "Opt_str"}, {"absent", "int_pos", "str_odd", "None"}, {"long"})
 RetTyps == {"int", "Opt_str", "Dotted"}
 \* (a return entry may be typed without being described: doc "absent")
 Rets == {NoRet} \cup [typ : RetTyps, def : {"absent"}, doc : {"plain"}] \cup {[typ |-> "int", def |-> "absent", doc |-> "absent"]}
@@ -37,23 +40,28 @@ ParamSeqs == {<<>>} \cup {<<p>> : p \in DocParams}
                    ELSE {})
 InDomain(cfg, ps) == cfg.style = "rest" \/ SigLegal(ps)       \* Google/NumPy: defaults form a suffix
 
-VARIABLES cfg, i, pc, lines, out, fired
-vars == <<cfg, i, pc, lines, out, fired>>
+\* keep: the parser is asked to KEEP the sentence `Defaults to ..` in the description (the library's own default) instead of stripping it
+\* again; the default must be extracted all the same.  (Varied where a default is carried, for interfaces of <= 1 TYPED parameter: with the
+\* sentence left in place the prose type heuristics read it too, which for untyped entries is C08's hostile territory.)
+VARIABLES cfg, i, pc, lines, out, fired, keep
+vars == <<cfg, i, pc, lines, out, fired, keep>>
 
 Init == /\ cfg \in {CfgSeq[k] : k \in {j \in 1..Len(CfgSeq) : j % NShards = Shard}}
-        /\ \E ps \in ParamSeqs, r \in Rets, d \in {"one"} :
+        /\ \E ps \in ParamSeqs \cup {<<p>> : p \in LongParams}, r \in Rets, d \in {"one"} :
               /\ InDomain(cfg, ps)
+              /\ ((\E k \in 1..Len(ps) : ps[k].doc = "long") => r = NoRet)
               /\ i = [doc |-> d, params |-> ps, ret |-> r]
+              /\ keep \in (IF cfg.edd /\ Len(ps) <= 1 /\ (\A k \in 1..Len(ps) : ps[k].typ # "absent") THEN BOOLEAN ELSE {FALSE})
         /\ pc = "start" /\ lines = <<>> /\ out = "none" /\ fired = {}
 
 \* Emit: the docstring as a sequence of line records (as built when deviations are enabled)
 Emit == /\ pc = "start"
         /\ lines' = DL!EmitLines(cfg, i, Enabled # {})
-        /\ pc' = "emitted" /\ UNCHANGED <<cfg, i, out, fired>>
+        /\ pc' = "emitted" /\ UNCHANGED <<cfg, i, out, fired, keep>>
 \* Parse: the interface read back
 Parse == /\ pc = "emitted"
-         /\ LET ab == AsBuilt(Enabled, cfg, i) IN out' = ab.out /\ fired' = ab.fired
-         /\ pc' = "done" /\ UNCHANGED <<cfg, i, lines>>
+         /\ LET ab == AsBuilt(Enabled, [style |-> cfg.style, edd |-> cfg.edd, et |-> cfg.et, keep |-> keep], i) IN out' = ab.out /\ fired' = ab.fired
+         /\ pc' = "done" /\ UNCHANGED <<cfg, i, lines, keep>>
 
 Next == Emit \/ Parse
 Spec == Init /\ [][Next]_vars
@@ -68,7 +76,7 @@ ToSeq(S) == CHOOSE f \in [1..Cardinality(S) -> S] : \A a, b \in 1..Cardinality(S
 JP(e) == [present |-> e.present, wild |-> e.wild, typs |-> ToSeq(e.typs), def |-> e.def, doc |-> e.doc]
 JI(x) == [raises |-> x.raises, wild |-> x.wild, doc |-> x.doc, params |-> [k \in 1..Len(x.params) |-> JP(x.params[k])], ret |-> JP(x.ret)]
 Dump == pc = "done" =>
-          PrintT(ToJson([cfg |-> cfg, lines |-> lines,
+          PrintT(ToJson([cfg |-> [style |-> cfg.style, edd |-> cfg.edd, et |-> cfg.et, keep |-> keep], lines |-> lines,
                          i |-> i,
                          exp |-> JI(Norm(cfg, i)), asb |-> JI(out), devs |-> ToSeq(fired)]))
 =====================================================================================
